@@ -9,6 +9,7 @@
 #include <tulz/Path.h>
 
 #include <algorithm>
+#include <cstring>
 #include <dirent.h>
 #include <filesystem>
 #include <fstream>
@@ -22,7 +23,7 @@ using namespace tulz;
 namespace vf {
 namespace {
 
-enum K { MKDIR = 0, MKFILE, STR_LAW, STR_ANY, V_PUSH_CTOR, V_PUSH_DEFAULT, V_SET, V_VISIT, V_RESTORE, V_POP, NK };
+enum K { MKDIR = 0, MKFILE, STR_LAW, STR_ANY, V_PUSH_CTOR, V_PUSH_DEFAULT, V_SET, V_VISIT, V_RESTORE, V_POP, V_CHDIR, NK };
 
 std::string gen_name(int a, int b) {
     static const char *fixed[] = {"a", "b.txt", ".hidden", "..rc", "...", "with space", "\xc3\xbc\xc3\xaf", "\xff\xfe", "back\\slash", "-dash", "x..y", "UPPER",
@@ -91,6 +92,7 @@ void run_c18(const Case &c) {
 
     // ---- DirectoryVisitor stack (strictly nested use)
     struct V { std::unique_ptr<DirectoryVisitor> v; std::string dir; bool visited = false; std::string before; };
+    bool chdir_used = false;
     bool revisited = false;   // some visitor visited twice: "the previous directory" is then the one before its LAST visit, the chain to cwd0 is broken by design
     std::vector<V> vs;
     const std::string cwd0 = fs::current_path().string();
@@ -126,6 +128,28 @@ void run_c18(const Case &c) {
         if (cwd() != expect) violation("VISITOR", "after visiting '%s' from %s the working directory is %s, expected %s", shown(d).c_str(), before.c_str(), cwd().c_str(), expect.c_str());
     };
 
+    // raw strings (libFuzzer, or a blob in a generated case): bytes up to the first 0x00 are d, the rest is n
+    if (!c.blob.empty()) {
+        size_t z = c.blob.find('\0');
+        std::string d = c.blob.substr(0, z), n = z == std::string::npos ? std::string() : c.blob.substr(z + 1);
+        n = n.substr(0, n.find('\0')); d = d.substr(0, 300); n = n.substr(0, 300);
+        char *ed = static_cast<char *>(malloc(d.size() + 1)); memcpy(ed, d.c_str(), d.size() + 1);
+        char *en = static_cast<char *>(malloc(n.size() + 1)); memcpy(en, n.c_str(), n.size() + 1);
+        { Path p{std::string(ed)}; (void)p.getPathName(); (void)p.getParentDirectory(); (void)p.isAbsolute(); (void)Path::join(std::string(ed), std::string(en)); (void)Path::join(Path(std::string(en)), p); }
+        free(ed); free(en);
+        bool sepfree = !n.empty() && n.find('/') == std::string::npos && n.find('\\') == std::string::npos;
+        bool dok = !d.empty() && d.find('\\') == std::string::npos;
+        if (sepfree && dok) {
+            std::string j = Path::join(d, n);
+            if (Path(j).getPathName() != n) violation("STRING", "getPathName(join('%s','%s')) = '%s'", shown(d).c_str(), shown(n).c_str(), shown(Path(j).getPathName()).c_str());
+            std::string want = d; if (want.back() == '/') want.pop_back();
+            if (Path(j).getParentDirectory().toString() != want) violation("STRING", "getParentDirectory(join('%s','%s')) = '%s', expected '%s'", shown(d).c_str(), shown(n).c_str(), shown(Path(j).getParentDirectory().toString()).c_str(), shown(want).c_str());
+            std::string abs = "/" + n;
+            if (Path::join(d, abs) != abs) violation("STRING", "join('%s','%s') != the absolute operand", shown(d).c_str(), shown(abs).c_str());
+            if (Path::join(std::string(), n) != n) violation("STRING", "join('', n) != n");
+            label("raw_string_law"); str_nt = true;
+        }
+    }
     int opno = 0;
     for (const Op &o : c.ops) {
         ++opno;
@@ -147,6 +171,17 @@ void run_c18(const Case &c) {
             } else {
                 size_t sz = sizes[(unsigned)o.c % 9];
                 if (thorough && (o.c & 64)) sz = 1u << 21;
+                if ((o.c & 0xB0) == 0xB0) {
+                    // a SPARSE file of 1 GiB, 2 GiB - 1 or 3 GiB (no data blocks): totals beyond 2^31 / 2^32 cost nothing
+                    static const uintmax_t huge[3] = {1ull << 30, (1ull << 31) - 1, 3ull << 30};
+                    uintmax_t hs = huge[(unsigned)o.b % 3];
+                    { std::ofstream f0(p, std::ios::binary); if (!f0) { done = false; break; } }
+                    std::error_code ec2; fs::resize_file(p, hs, ec2);
+                    if (ec2) { fs::remove(p, ec2); done = false; break; }
+                    nodes.push_back(Node{p, false, hs}); label("sparse_gigabyte_file");
+                    for (unsigned char ch : name) if (ch >= 0x80) has_nonascii = true;
+                    break;
+                }
                 std::ofstream f(p, std::ios::binary);
                 if (!f) { done = false; break; }
                 std::string blk(std::min<size_t>(sz, 65536), (char)('A' + o.b % 26));
@@ -198,6 +233,13 @@ void run_c18(const Case &c) {
         case V_PUSH_DEFAULT: { if (vs.size() >= 4) { done = false; break; } vs.emplace_back(); vs.back().v = std::make_unique<DirectoryVisitor>(); break; }
         case V_SET: { if (vs.empty()) { done = false; break; } vs.back().dir = vdir(o.a, o.b); vs.back().v->set(Path(vs.back().dir)); break; }
         case V_VISIT: { if (vs.empty()) { done = false; break; } do_visit(vs.back(), false, vs.back().dir); break; }
+        case V_CHDIR: {
+            // the working directory also changes by other means between the uses of a long-lived visitor
+            std::string d = nodes[dirs[(unsigned)o.b % dirs.size()]].path;
+            std::error_code ec; fs::current_path(d, ec);
+            if (!ec) { chdir_used = true; label("cwd_changed_by_other_means"); } else done = false;
+            break;
+        }
         case V_RESTORE: case V_POP: {
             if (vs.empty()) { done = false; break; }
             V &x = vs.back();
@@ -220,7 +262,7 @@ void run_c18(const Case &c) {
         if (cwd() != expect) violation("VISITOR", "after the visitor was destroyed the working directory is %s, expected %s", cwd().c_str(), expect.c_str());
         vs.pop_back();
     }
-    if (!revisited && cwd() != cwd0) violation("VISITOR", "after all visitors were destroyed (in LIFO order) the working directory is %s, it was %s", cwd().c_str(), cwd0.c_str());
+    if (!revisited && !chdir_used && cwd() != cwd0) violation("VISITOR", "after all visitors were destroyed (in LIFO order) the working directory is %s, it was %s", cwd().c_str(), cwd0.c_str());
 
     // ---- filesystem differential over every node, several passes under a tight descriptor limit
     for (size_t di : dirs) { bool any = false; for (auto &e : fs::directory_iterator(nodes[di].path)) { (void)e; any = true; break; } if (!any && di != 0) has_empty_dir = true; }
